@@ -510,16 +510,13 @@ Qed.
 Theorem tsem_array_write elems (idx value : list bool) eb m (o : pobs) :
   (1 <= eb)%nat -> all_len eb elems -> lenN elems < 2 ^ 32 ->
   (length idx <= USZ)%nat -> length value = eb ->
-  array_write tops (concat elems) eb idx value m o
+  array_write tops (concat elems) eb (length elems) idx value m o
   = Ok (concat (list_set elems (N.to_nat (bits_to_N idx)) value),
         push_spec o (lenN elems <=? bits_to_N idx) OutOfBounds (ploc_of m)).
 Proof.
   intros Heb Hall Hn Hl Hv. unfold array_write.
-  destruct (Nat.eqb_spec eb 0) as [E|_]; [lia|]. cbn zeta.
   pose proof (length_concat_all_len eb elems Hall) as Hlc.
-  assert (Hsz : (length (concat elems) / eb)%nat = length elems)
-    by (rewrite Hlc; apply Nat.div_mul; lia).
-  rewrite Hsz. unfold mbind at 1. rewrite tsem_m_extend_index by exact Hl.
+  unfold mbind at 1. rewrite tsem_m_extend_index by exact Hl.
   pose proof (extend_s_length idx false USZ Hl) as Hl'.
   pose proof (zext_correct idx USZ) as Hval.
   set (idx' := extend_s idx false USZ) in *.
@@ -537,7 +534,7 @@ Print Assumptions tsem_array_write.
 Corollary tsem_array_write_in_bounds elems (idx value : list bool) eb m (o : pobs) :
   (1 <= eb)%nat -> all_len eb elems -> lenN elems < 2 ^ 32 ->
   (length idx <= USZ)%nat -> length value = eb -> bits_to_N idx < lenN elems ->
-  array_write tops (concat elems) eb idx value m o
+  array_write tops (concat elems) eb (length elems) idx value m o
   = Ok (concat (list_set elems (N.to_nat (bits_to_N idx)) value), o).
 Proof.
   intros Heb Hall Hn Hl Hv HI. rewrite tsem_array_write by assumption.
@@ -548,7 +545,7 @@ Print Assumptions tsem_array_write_in_bounds.
 Corollary tsem_array_write_out_of_bounds elems (idx value : list bool) eb m (o : pobs) :
   (1 <= eb)%nat -> all_len eb elems -> lenN elems < 2 ^ 32 ->
   (length idx <= USZ)%nat -> length value = eb -> lenN elems <= bits_to_N idx ->
-  array_write tops (concat elems) eb idx value m o
+  array_write tops (concat elems) eb (length elems) idx value m o
   = Ok (concat elems, push_spec o true OutOfBounds (ploc_of m)).
 Proof.
   intros Heb Hall Hn Hl Hv HI. rewrite tsem_array_write by assumption.
@@ -703,7 +700,7 @@ Theorem tsem_array_read_after_write elems (idx jdx value : list bool) eb n m m' 
   (1 <= eb)%nat -> all_len eb elems -> length elems = n -> N.of_nat n < 2 ^ 32 ->
   (length idx <= USZ)%nat -> (length jdx <= USZ)%nat -> length value = eb ->
   bits_to_N idx < N.of_nat n ->
-  array_write tops (concat elems) eb idx value m o = Ok (arr', o') ->
+  array_write tops (concat elems) eb (length elems) idx value m o = Ok (arr', o') ->
   o' = o /\
   array_read tops arr' jdx eb n m' o'
   = Ok ((if bits_to_N jdx =? bits_to_N idx then value
